@@ -934,6 +934,16 @@ func (f *Fn) FailurePropagates(r *Rule, a *Sites, label string) bool {
 // edge on which one of the skip atoms holds is taken; the loop is never left
 // from inside its body (no break, no return).
 func (f *Fn) LoopSelectsAll(r *Rule, sel *Sites, label string, skip ...AtomPred) bool {
+	return f.loopSelectsAll(r, sel, label, false, skip...)
+}
+
+// LoopSelectsAllOrFails is LoopSelectsAll where leaving the loop by returning a
+// non-nil error is allowed (the element is rejected, not silently skipped).
+func (f *Fn) LoopSelectsAllOrFails(r *Rule, sel *Sites, label string, skip ...AtomPred) bool {
+	return f.loopSelectsAll(r, sel, label, true, skip...)
+}
+
+func (f *Fn) loopSelectsAll(r *Rule, sel *Sites, label string, allowErrReturn bool, skip ...AtomPred) bool {
 	key := f.Name + ": " + label
 	sel = sel.Sync()
 	r.AddSites(sel.Len())
@@ -975,6 +985,15 @@ func (f *Fn) LoopSelectsAll(r *Rule, sel *Sites, label string, skip ...AtomPred)
 		return false
 	}
 	cutV := sel.Vs()
+	if allowErrReturn {
+		idx := f.errResultIndex()
+		for _, s := range f.Find(AnyReturn()).List {
+			rs := s.Node.(*ast.ReturnStmt)
+			if idx >= 0 && len(rs.Results) > idx && !IsNilIdent(f.Info, rs.Results[idx]) {
+				cutV[s.V] = true
+			}
+		}
+	}
 	cutE := f.EdgesImplyingAny(skip...)
 	ok := true
 	targets := append(append([]int{f.G.Exit}, heads...), done...)
